@@ -689,7 +689,7 @@ func eGenLid64k(r *rng.R, ndocs int) *eCorpus {
 	step := uint64(r.Range(1, 2)) // 2: every MID is shared by two documents
 	off := [6]int{r.Intn(ndocs), r.Intn(ndocs), r.Intn(ndocs), r.Intn(ndocs), r.Intn(ndocs), r.Intn(ndocs)}
 	big := 2 * eLidCap
-	if ndocs >= 3*eLidCap+1000 && r.Bool() {
+	if ndocs >= 3*eLidCap+1000 {
 		big = 3 * eLidCap
 	}
 	c.params = map[string]any{"docs": ndocs, "small": small, "mid_step_div": step, "window_offsets": off, "biggest": big}
@@ -1112,8 +1112,8 @@ func runE2E(w *casefile.Writer, r *rng.R, tier string) {
 	}
 	var jobs []job
 	add := func(gen func(*rng.R) *eCorpus) { jobs = append(jobs, job{r.U64(), gen}) }
-	// quick: 1 lid64k, 4 ids4k (one per offset), 4 dict16k (one per threshold), 10 small
-	nl, nsmall := 1, 10
+	// quick: 2 lid64k (~137k and ~199k documents), 4 ids4k (one per offset), 4 dict16k (one per threshold), 10 small
+	nl, nsmall := 2, 10
 	sizes := []int{eTokBlock, eTokBlock - 1, eTokBlock + 1, 3 * eTokBlock}
 	if thorough {
 		nl, nsmall = 6, 60
@@ -1123,7 +1123,9 @@ func runE2E(w *casefile.Writer, r *rng.R, tier string) {
 		i := i
 		add(func(r *rng.R) *eCorpus {
 			n := 2*eLidCap + r.Range(3000, 9000)
-			if thorough && i > 0 {
+			if i == 1 {
+				n = 3*eLidCap + r.Range(1000, 3400) // biggest token: 196608 postings = exactly three LID blocks
+			} else if i > 1 {
 				n = r.Range(2*eLidCap+1, 300000)
 			}
 			return eGenLid64k(r, n)
